@@ -387,6 +387,39 @@ Example all_rule_nonvacuous :
   accepted S0 (mkD 20 0 false (mkRule [acl_op_select] true (FQNames [14; 16]) [] 11)) = true.
 Proof. vm_compute. repeat split. Qed.
 
+(* consequences of the declared semantics that look odd (seed agent c13-5, observations 8a-8c); the
+   oracle says the same as the code here, explicitly: a SELECT grant with a field list also grants the
+   system fields of the resource (`touches`; pinned by the repository's own acl tests), a field-list
+   revoke removes the listed fields only, the last rule that touches a field wins *)
+Example implicit_system_fields_consequences :
+  let t := mkTyp 14 5 20 [] (Some [0; 1; 4; 5; 6]) true false false true [1; 2; 3; 4; 5] in
+  let g1 := mkRule [acl_op_select] true (FQNames [14]) [5] 11 in        (* GRANT SELECT(f5) *)
+  let r1 := mkRule [acl_op_select] false (FQNames [14]) [5] 11 in       (* REVOKE SELECT(f5) *)
+  let ga := mkRule [acl_op_select] true (FQNames [14]) [] 11 in         (* GRANT SELECT *)
+  let rid := mkRule [acl_op_select] false (FQNames [14]) [1] 11 in      (* REVOKE SELECT(sys.ID) *)
+  (* 8a: the system fields granted along with f5 survive the revoke of f5 *)
+  spec_decide 99 acl_op_select t [] [11] [g1; r1] = true /\ decide true 99 acl_op_select t [] [11] [g1; r1] = true /\
+  spec_decide 99 acl_op_select t [1] [11] [g1; r1] = true /\ spec_decide 99 acl_op_select t [5] [11] [g1; r1] = false /\
+  (* 8b: a later field-list grant grants sys.ID again (last touching rule wins) *)
+  spec_decide 99 acl_op_select t [1] [11] [ga; rid] = false /\
+  spec_decide 99 acl_op_select t [1] [11] [ga; rid; g1] = true /\ decide true 99 acl_op_select t [1] [11] [ga; rid; g1] = true /\
+  (* not so for other operations: no implicit system fields *)
+  spec_decide 99 acl_op_insert t [1] [11] [mkRule [acl_op_insert] true (FQNames [14]) [5] 11] = false.
+Proof. vm_compute. repeat split. Qed.
+
+(* 8c: sibling ancestors are visited in the order Ancestors() reports them (name order), whatever
+   the order they were listed in; the later one wins *)
+Example sibling_ancestors_in_name_order :
+  let t := mkTyp 14 5 21 [] (Some [0; 1; 4; 5]) true false false true [1; 2; 3; 4; 5] in
+  let g := mkRule [acl_op_select] true (FQNames [14]) [] 11 in
+  let r := mkRule [acl_op_select] false (FQNames [14]) [] 11 in
+  let S a b := mkSchema [mkTyp 11 19 21 [] None false false true false [8]; t]
+                 [mkWs 21 [] []; mkWs 22 [21] a; mkWs 23 [21] b; mkWs 24 [22; 23] []] in
+  is_allowed (S [g] [r]) 99 24 acl_op_select 14 [] [11] = ODeny /\
+  is_allowed (S [r] [g]) 99 24 acl_op_select 14 [] [11] = OAllow /\
+  ws_order (S [g] [r]) 24 = [21; 22; 23; 24].
+Proof. vm_compute. repeat split. Qed.
+
 Example link_nonvacuous :
   let q := mkQ 20 acl_op_select 14 [1; 5] [13; 10; 11; 12] OAllow in
   qout q = is_allowed_gen found_cfg ex_schema 99 20 acl_op_select 14 [1; 5] [13; 10; 11; 12] /\
